@@ -207,7 +207,7 @@ func Resize(a Term, w int, signed bool) Term {
 }
 
 func Select(arr, idx Term, elem Sort) Term { return app(elem, "select", arr, idx) }
-func Store(arr, idx, v Term) Term        { return app(arr.Sort, "store", arr, idx, v) }
+func Store(arr, idx, v Term) Term          { return app(arr.Sort, "store", arr, idx, v) }
 
 func Forall(vars []Term, body Term) Term {
 	if len(vars) == 0 {
@@ -258,12 +258,14 @@ type Obligation struct {
 	goal   Term // reach ∧ ¬prop ; unsat ⇒ discharged
 	Inputs []InputSym
 	// results
-	Status  string // unsat | sat | unknown
-	Solver  string
-	Ms      int64
-	Model   map[string]string
-	Output  string
-	Vacuity bool // a reachability (cover) query: expected sat
+	Status     string // unsat | sat | unknown
+	Solver     string
+	Ms         int64
+	Model      map[string]string
+	Output     string
+	Vacuity    bool   // a reachability (cover) query: expected sat
+	KnownClass string // non-empty: the input class of a recorded known finding (expected sat)
+	KnownWhat  string
 }
 
 // InputSym names a symbol of the entry state whose model value is wanted.
@@ -273,19 +275,21 @@ type InputSym struct {
 }
 
 type Ctx struct {
-	declOrder []string
-	decls     map[string]string // symbol -> full declaration text
-	log       []logEntry
-	Obls      []*Obligation
-	fresh     int
-	noDefine  int // >0: inside a binder, do not introduce constants
-	strLits   map[string]Term
-	strOrder  []string
-	funDefs   []string // define-fun / axioms that are global to the unit
-	Unit      string
-	Inputs    []InputSym
+	declOrder  []string
+	decls      map[string]string // symbol -> full declaration text
+	log        []logEntry
+	Obls       []*Obligation
+	fresh      int
+	noDefine   int // >0: inside a binder, do not introduce constants
+	strLits    map[string]Term
+	strOrder   []string
+	funDefs    []string // define-fun / axioms that are global to the unit
+	Unit       string
+	Inputs     []InputSym
 	Abstracted map[string]int // abstraction kind -> count
 	Trusted    map[string]bool
+	evalDefs   []logEntry // definitions of observation symbols (always included)
+	obsOK      map[string]bool
 }
 
 func NewCtx(unit string) *Ctx {
@@ -395,15 +399,15 @@ func (c *Ctx) Cover(name, pos string, reach Term) *Obligation {
 // Query text
 
 const prelude = `(declare-sort Str 0)
-(declare-fun str.len (Str) (_ BitVec 64))
-(declare-fun str.at (Str (_ BitVec 64)) (_ BitVec 8))
-(declare-fun str.cat (Str Str) Str)
-(declare-fun str.sub (Str (_ BitVec 64) (_ BitVec 64)) Str)
-(declare-fun str.lower (Str) Str)
-(declare-fun str.fold (Str Str) Bool)
-(declare-fun str.lt (Str Str) Bool)
-(declare-const str.empty Str)
-(assert (= (str.len str.empty) #x0000000000000000))
+(declare-fun sx.len (Str) (_ BitVec 64))
+(declare-fun sx.at (Str (_ BitVec 64)) (_ BitVec 8))
+(declare-fun sx.cat (Str Str) Str)
+(declare-fun sx.sub (Str (_ BitVec 64) (_ BitVec 64)) Str)
+(declare-fun sx.lower (Str) Str)
+(declare-fun sx.fold (Str Str) Bool)
+(declare-fun sx.lt (Str Str) Bool)
+(declare-const sx.empty Str)
+(assert (= (sx.len sx.empty) #x0000000000000000))
 `
 
 func symbolsOf(s string, out map[string]bool) {
@@ -433,6 +437,17 @@ func symList(s string) []string {
 	return r
 }
 
+func obs(c *Ctx, s string) bool { return c.obsOK[s] }
+
+// Observe names a term so that counterexamples report its value.
+func (c *Ctx) Observe(name string, t Term) {
+	c.fresh++
+	v := Term{fmt.Sprintf("obs!%d", c.fresh), t.Sort}
+	c.decls[v.S] = fmt.Sprintf("(declare-const %s %s)", v.S, t.Sort)
+	c.evalDefs = append(c.evalDefs, logEntry{text: "(= " + v.S + " " + t.S + ")", def: v.S})
+	c.Inputs = append(c.Inputs, InputSym{Name: name, Term: v})
+}
+
 // Query renders the SMT-LIB text of an obligation, sliced to the symbols the
 // goal depends on (dropping assumptions is sound: it can only lose proofs).
 func (c *Ctx) Query(o *Obligation, withModel bool) string {
@@ -445,32 +460,23 @@ func (c *Ctx) Query(o *Obligation, withModel bool) string {
 		}
 	}
 	include := make([]bool, n)
-	// definitions are directed (needed only if the defined symbol is relevant);
-	// plain assumptions are included when they mention a relevant symbol.
-	for changed := true; changed; {
-		changed = false
-		for i := n - 1; i >= 0; i-- {
-			if include[i] {
-				continue
+	// Every plain assumption is kept (dropping one whose symbols are only
+	// definitionally connected to the goal would silently lose a precondition);
+	// definitions are kept when the symbol they define is used.
+	for i := 0; i < n; i++ {
+		if c.log[i].def == "" {
+			include[i] = true
+			for _, s := range c.log[i].syms {
+				rel[s] = true
 			}
-			e := &c.log[i]
-			hit := false
-			if e.def != "" {
-				hit = rel[e.def]
-			} else {
-				for _, s := range e.syms {
-					if rel[s] && c.decls[s] != "" {
-						hit = true
-						break
-					}
-				}
-			}
-			if hit {
-				include[i] = true
-				changed = true
-				for _, s := range e.syms {
-					rel[s] = true
-				}
+		}
+	}
+	for i := n - 1; i >= 0; i-- {
+		e := &c.log[i]
+		if e.def != "" && rel[e.def] {
+			include[i] = true
+			for _, s := range e.syms {
+				rel[s] = true
 			}
 		}
 	}
@@ -503,10 +509,10 @@ func (c *Ctx) Query(o *Obligation, withModel bool) string {
 	}
 	for _, s := range lits {
 		t := c.strLits[s]
-		fmt.Fprintf(&b, "(assert (= (str.len %s) %s))\n", t.S, BVLitI(64, int64(len(s))).S)
+		fmt.Fprintf(&b, "(assert (= (sx.len %s) %s))\n", t.S, BVLitI(64, int64(len(s))).S)
 		if len(s) <= 64 {
 			for k := 0; k < len(s); k++ {
-				fmt.Fprintf(&b, "(assert (= (str.at %s %s) %s))\n", t.S, BVLitI(64, int64(k)).S, BVLitI(8, int64(s[k])).S)
+				fmt.Fprintf(&b, "(assert (= (sx.at %s %s) %s))\n", t.S, BVLitI(64, int64(k)).S, BVLitI(8, int64(s[k])).S)
 			}
 		}
 	}
@@ -521,14 +527,31 @@ func (c *Ctx) Query(o *Obligation, withModel bool) string {
 			b.WriteString(")\n")
 		}
 	}
+	if withModel {
+		// observation symbols: their definitions only name existing terms
+		obs := map[string]bool{}
+		for _, d := range c.evalDefs {
+			ok := true
+			for _, sy := range symList(d.text) {
+				if c.decls[sy] != "" && !rel[sy] && sy != d.def {
+					ok = false
+				}
+			}
+			if ok {
+				obs[d.def] = true
+				b.WriteString(c.decls[d.def] + "\n(assert " + d.text + ")\n")
+			}
+		}
+		c.obsOK = obs
+	}
 	b.WriteString("(assert ")
 	b.WriteString(o.goal.S)
 	b.WriteString(")\n(check-sat)\n")
 	if withModel {
 		seen := map[string]bool{}
 		var vs []string
-		for _, in := range o.Inputs {
-			if !seen[in.Term.S] {
+		for _, in := range c.Inputs {
+			if !seen[in.Term.S] && (rel[in.Term.S] || obs(c, in.Term.S)) {
 				seen[in.Term.S] = true
 				vs = append(vs, in.Term.S)
 			}
